@@ -33,6 +33,10 @@ pub struct Profile {
     /// may the history commit a changeset whose base state was left and re-entered (same root,
     /// intervening commits)? Only where the known ABA finding is being tracked.
     pub allow_aba: bool,
+    /// run the independent on-disk decoder at every quiescent point
+    pub decode: bool,
+    /// fill / overwrite / empty cycles with frontier-drift check (C19)
+    pub cycles: bool,
 }
 
 pub fn profile(name: &str) -> Profile {
@@ -53,6 +57,8 @@ pub fn profile(name: &str) -> Profile {
         ladder_at_end: false,
         full_sweep_every: 8,
         allow_aba: false,
+        decode: false,
+        cycles: false,
     };
     match name {
         "C01" => Profile {
@@ -135,11 +141,23 @@ pub fn profile(name: &str) -> Profile {
             key_profile: [2, 4, 4],
             ..base
         },
-        "C16" | "C19" => Profile {
+        "C16" => Profile {
             name: "C16",
             val: ValProfile::Boundary,
-            w: [60, 6, 1, 5, 5, 2, 14],
+            w: [58, 8, 1, 6, 6, 2, 14],
             key_profile: [2, 3, 5],
+            decode: true,
+            big_initial: 200,
+            ..base
+        },
+        "C19" => Profile {
+            name: "C19",
+            val: ValProfile::Boundary,
+            w: [55, 8, 1, 6, 4, 1, 20],
+            key_profile: [3, 4, 3],
+            decode: true,
+            cycles: true,
+            big_initial: 0,
             ..base
         },
         _ => base,
@@ -269,6 +287,9 @@ pub fn run_case_k<'a, K: HashKind>(
 
 impl<'a, K: HashKind> Case<'a, K> {
     fn quiescent(&mut self, what: &str) {
+        if self.p.decode && !self.sut.dead && !self.rep.diverged {
+            decode_check::<K>(&self.sut, self.rep, what);
+        }
         if let Some(h) = self.hook.as_mut() {
             h(&self.sut, self.rep, what);
         }
@@ -280,6 +301,15 @@ impl<'a, K: HashKind> Case<'a, K> {
         if self.rng.below(1000) < self.p.big_initial {
             let n = self.rng.range(2000, 12000) as usize;
             self.initial_fill(n);
+        }
+        if self.p.cycles && self.rng.chance(1, 2) {
+            self.run_cycles();
+            if !self.sut.dead && !self.rep.diverged {
+                self.sut.check_root(self.rep, "after-cycles", true);
+            }
+            self.drop_all_overlays();
+            self.sut.db = None;
+            return;
         }
         for i in 0..n_ops {
             if self.sut.dead || self.rep.diverged {
@@ -321,6 +351,101 @@ impl<'a, K: HashKind> Case<'a, K> {
         }
         self.drop_all_overlays();
         self.sut.db = None;
+    }
+
+    /// C19: repeat an identical fill / overwrite / (partly) empty workload; after the warm-up
+    /// cycles the allocation frontiers after the empty phase must not keep growing.
+    fn run_cycles(&mut self) {
+        let n_cycles = self.rng.range(8, 12);
+        let n_keys = *self.rng.pick(&[60usize, 200, 600, 1500]);
+        let big_share = self.rng.below(3); // 0: in-leaf only, 1: some overflow, 2: many overflow
+        let mut keys: Vec<Key> = Vec::new();
+        let mut set = std::collections::BTreeSet::new();
+        while set.len() < n_keys {
+            set.insert(self.rng.key());
+        }
+        keys.extend(set);
+        let lens: Vec<(usize, usize)> = keys
+            .iter()
+            .map(|_| {
+                let l = |rng: &mut Rng| match (big_share, rng.below(10)) {
+                    (0, _) => rng.range(1, 900) as usize,
+                    (1, 0) => rng.range(1400, 9000) as usize,
+                    (2, 0..=3) => rng.range(1400, 70000) as usize,
+                    _ => rng.range(1, 1300) as usize,
+                };
+                (l(&mut self.rng), l(&mut self.rng))
+            })
+            .collect();
+        self.rep.t(format!("cycles n={n_cycles} keys={n_keys} big_share={big_share}"));
+        let mut frontiers: Vec<(u32, u32)> = Vec::new();
+        for c in 0..n_cycles {
+            if self.sut.dead || self.rep.diverged {
+                return;
+            }
+            self.rep.op_index = c * 3 + 1;
+            let st = self.next_stamp();
+            // fill
+            let b: Batch = keys
+                .iter()
+                .enumerate()
+                .map(|(i, k)| (*k, Access::Write(Some(crate::gen::stamped_value(st + i as u64, lens[i].0)))))
+                .collect();
+            self.commit_batch(b, 0, "cycle-fill");
+            if self.sut.dead || self.rep.diverged {
+                return;
+            }
+            // overwrite with the other length (in-leaf <-> overflow migration)
+            self.rep.op_index = c * 3 + 2;
+            let b: Batch = keys
+                .iter()
+                .enumerate()
+                .map(|(i, k)| (*k, Access::Write(Some(crate::gen::stamped_value(st + 5000 + i as u64, lens[i].1)))))
+                .collect();
+            self.commit_batch(b, if c % 3 == 2 { 8 } else { 0 }, "cycle-overwrite");
+            if self.sut.dead || self.rep.diverged {
+                return;
+            }
+            // empty
+            self.rep.op_index = c * 3 + 3;
+            let b: Batch = keys.iter().map(|k| (*k, Access::Write(None))).collect();
+            self.commit_batch(b, 0, "cycle-empty");
+            if self.sut.dead || self.rep.diverged {
+                return;
+            }
+            if let Ok(m) = crate::decode::read_meta(&self.sut.dir) {
+                frontiers.push((m.ln_bump, m.bbn_bump));
+            }
+            // occupancy is zero on an empty store
+            let occ = self.sut.db().hash_table_utilization().occupied;
+            self.rep.eval("C19", true);
+            if self.sut.model.kv.is_empty() && occ != 0 {
+                self.rep.fail(
+                    "C19",
+                    "occupancy-nonzero-on-empty-store",
+                    format!("cycle {c}: store is empty but hash_table_utilization().occupied = {occ}"),
+                );
+            }
+        }
+        if frontiers.len() >= 8 {
+            let warm_ln = frontiers[1..5].iter().map(|f| f.0).max().unwrap();
+            let warm_bbn = frontiers[1..5].iter().map(|f| f.1).max().unwrap();
+            let late_ln = frontiers[5..].iter().map(|f| f.0).max().unwrap();
+            let late_bbn = frontiers[5..].iter().map(|f| f.1).max().unwrap();
+            self.rep.eval("C19", true);
+            self.rep.sample("C19", serde_json::json!({"cycle_frontiers_(ln_bump,bbn_bump)_after_empty": frontiers, "keys": n_keys, "big_share": big_share}));
+            if late_ln > warm_ln || late_bbn > warm_bbn {
+                self.rep.fail(
+                    "C19",
+                    "frontier-drift",
+                    format!(
+                        "identical fill/overwrite/empty cycles: frontier after the empty phase keeps growing: (ln_bump, bbn_bump) per cycle = {:?}",
+                        frontiers
+                    ),
+                );
+            }
+            self.rep.feat("cycle_runs", 1);
+        }
     }
 
     fn drop_all_overlays(&mut self) {
@@ -1803,3 +1928,64 @@ impl<'a, K: HashKind> Case<'a, K> {
     }
 }
 
+
+
+/// Run the independent decoder on the (quiescent) directory of `sut` and compare with the model.
+pub fn decode_check<K: HashKind>(sut: &Sut<K>, rep: &mut Rep, what: &str) {
+    let model_items: std::collections::BTreeMap<Key, (usize, Hash)> =
+        sut.model.kv.iter().map(|(k, v)| (*k, (v.bytes.len(), v.hash))).collect();
+    let trie = sut.full_trie();
+    let d = crate::decode::decode_all::<K>(&sut.dir, &model_items, &trie);
+    let nontrivial = d.feats.get("max_branch_nodes").copied().unwrap_or(0) >= 2
+        || d.feats.get("overflow_values_decoded").copied().unwrap_or(0) >= 1
+        || d.ht_tombstones >= 1
+        || d.feats.get("max_elided_children").copied().unwrap_or(0) >= 1;
+    rep.eval("C16", nontrivial);
+    let freed_or_reused = d.ln_accounting.1 + d.ln_accounting.2 + d.bbn_accounting.1 > 0;
+    rep.eval("C19", freed_or_reused);
+    let ctx = format!(
+        "op{} {what} (seqn {}, {} keys, ln live/free/list/total {:?}, bbn {:?}, ht full {} tomb {})",
+        rep.op_index,
+        d.meta.sync_seqn,
+        model_items.len(),
+        d.ln_accounting,
+        d.bbn_accounting,
+        d.ht_full,
+        d.ht_tombstones
+    );
+    for is in &d.issues {
+        let (prop, sig) = if is.starts_with("LEAK") {
+            ("C19", format!("leak:{}", if is.contains(" ln") { "ln" } else { "bbn" }))
+        } else {
+            ("C16", format!("decode:{}", crate::sut::msg_class(is).chars().take(60).collect::<String>()))
+        };
+        rep.fail(prop, &sig, format!("{ctx}: {is}"));
+    }
+    // meta vs handle
+    if d.meta.sync_seqn != sut.model.seqn {
+        rep.fail("C16", "decode:meta-seqn", format!("{ctx}: meta sync_seqn {} != model {}", d.meta.sync_seqn, sut.model.seqn));
+    }
+    // C19: reported occupancy == full buckets on disk == distinct stored pages
+    let occ = sut.db().hash_table_utilization().occupied as u64;
+    if occ != d.ht_full || d.ht_full != d.ht_distinct_pages {
+        rep.fail(
+            "C19",
+            "occupancy-mismatch",
+            format!(
+                "{ctx}: hash_table_utilization().occupied = {occ}, full buckets in the on-disk meta map = {}, distinct stored merkle pages = {}",
+                d.ht_full, d.ht_distinct_pages
+            ),
+        );
+    }
+    if model_items.is_empty() && occ != 0 {
+        rep.fail("C19", "occupancy-nonzero-on-empty-store", format!("{ctx}: occupied = {occ} on an empty store"));
+    }
+    for (k, v) in &d.feats {
+        if k.starts_with("max_") {
+            rep.feat_max(k, *v);
+        } else {
+            rep.feat(k, *v);
+        }
+    }
+    rep.feat("decodes", 1);
+}
